@@ -22,8 +22,8 @@ var shapeDocs = []string{
 }
 
 var shapeLHS = []string{"", "a", "o", "e", "eo", "n", "s", "m", "a[0].j", "o.z", "@", "`[[1,null],[2]]`", "`{\"p\":null,\"q\":1}`", "not_null(n, a)", "values(o)", "o.w"}
-var shapeOps = []string{"[*]", ".*", "[]", "[?@]", "[?k]", "[?k == `1`]", "[1:]", "[::-1]", "[:1]", "[*][*]", "[][]", ".*.*", "[*].*", ".*[*]", "[].*", "[?@][]", "[*][0]", "[0][*]"}
-var shapeRHS = []string{"", ".k", ".k.j", ".j[0]", "[0]", ".type(@)", ".to_string(@)", ".not_null(@, `1`)", ".[@]", ".{v: @}", ".length(to_array(@))", ".k[*]", ".j[]", ".*", ".j[?@ > `1`]", ".[k, j]", ".not_null(k, j)", ".type(k)"}
+var shapeOps = []string{"[*]", ".*", "[]", "[?@]", "[?k]", "[?k == `1`]", "[1:]", "[::-1]", "[:1]", "[*][*]", "[][]", ".*.*", "[*].*", ".*[*]", "[].*", "[?@][]", "[*][0]", "[0][*]", "[?j[]]", "[?j[*]]"}
+var shapeRHS = []string{"", ".k", ".k.j", ".j[0]", "[0]", ".type(@)", ".to_string(@)", ".not_null(@, `1`)", ".[@]", ".{v: @}", ".length(to_array(@))", ".k[*]", ".j[]", ".*", ".j[?@ > `1`]", ".[k, j]", ".not_null(k, j)", ".type(k)", ".[j[]]", ".{x: j[], y: k}", ".[j[*], k]", ".not_null(j[], k)", ".[j[?@]]", ".[*.k]", ".[j[1:]]"}
 var shapeEnd = []string{"", " | [0]", " | length(@)", " || `\"alt\"`", "[0]", ".k", " | [?@]"}
 
 func TestC02Shapes(t *testing.T) {
@@ -59,5 +59,45 @@ func TestC02Shapes(t *testing.T) {
 	st := statsFor("C02")
 	st.mu.Lock()
 	st.Exhaustive["C02.shape-grid"] = fmt.Sprintf("%d left-hand sides x %d projection operator chains x %d right-hand sides x %d terminators on %d documents (full grid on the first, every 5th cell on the others; shard %d/%d: %d expressions)", len(shapeLHS), len(shapeOps), len(shapeRHS), len(shapeEnd), len(shapeDocs), shard, nshards, n)
+	st.mu.Unlock()
+}
+
+
+// pipe right-hand sides for the C15 shape grid
+var shapePipeRHS = []string{"[0]", "[-1]", "[1]", "length(@)", "[?@]", "[0].k", "type(@)", "[::-1]", "@", "to_array(@)", "[*]", "[]", "[*].k", "not_null(@, `1`)", "[0] || `\"d\"`", "[?k].j", "keys(@)", "[:1]", "*", "[@, @[0]]"}
+
+// TestC15Shapes: every shape-grid expression A piped into every short B:
+// Search('(A) | (B)', d) == Search(B, Search(A, d)).
+func TestC15Shapes(t *testing.T) {
+	shard, nshards := envInt("VERIF_SHARD", 0), envInt("VERIF_NSHARDS", 1)
+	n, k := 0, 0
+	for di, d := range shapeDocs {
+		for _, l := range shapeLHS {
+			for _, op := range shapeOps {
+				if l == "" && op[0] == '.' {
+					op = op[1:]
+				}
+				for ri, r := range shapeRHS {
+					for bi, b := range shapePipeRHS {
+						k++
+						if k%nshards != shard {
+							continue
+						}
+						if di > 0 && (k+ri+bi)%7 != 0 {
+							continue
+						}
+						if di == 0 && (ri+bi)%2 != 0 {
+							continue
+						}
+						run(t, Case{Property: "C15", Kind: "pipe", Expr: l + op + r, Doc: d, Extra: map[string]interface{}{"b": b}})
+						n++
+					}
+				}
+			}
+		}
+	}
+	st := statsFor("C15")
+	st.mu.Lock()
+	st.Exhaustive["C15.shape-grid"] = fmt.Sprintf("shape-grid expressions A (%d x %d x %d) piped into %d short right-hand sides B on %d documents (every 2nd cell on the first document, every 7th on the others; shard %d/%d: %d pairs)", len(shapeLHS), len(shapeOps), len(shapeRHS), len(shapePipeRHS), len(shapeDocs), shard, nshards, n)
 	st.mu.Unlock()
 }
